@@ -1,6 +1,6 @@
 # Builds the simulator against /repo's *current* working tree.
 REPO ?= /repo
-B ?= /verif/build
+B ?= build
 CXX_ASAN ?= clang++
 COMMON = -std=c++17 -DYOMM2_VERIF_SIM -I$(REPO)/include -Isim -Wno-deprecated-declarations
 ASAN_FLAGS = $(COMMON) -O1 -gline-tables-only -fno-omit-frame-pointer -fsanitize=address,undefined -fno-sanitize-recover=undefined
